@@ -20,6 +20,7 @@ import (
 	"hash/crc64"
 	"io"
 	"math/rand"
+	"os"
 	"regexp"
 	"runtime"
 	"sort"
@@ -1060,6 +1061,13 @@ func (r *syRig) runSchedule(choose func(step int, en []syAct) int, maxSteps int)
 	for n := 0; n < maxSteps; n++ {
 		en := r.enabled()
 		if len(en) == 0 {
+			// nothing is enabled. If something is still pending (a busy thread, a running handler) make sure that it is
+			// really stuck before the schedule ends: the quiescence detection by goroutine dumps has been seen to return
+			// early on a heavily loaded machine
+			if r.pending() && r.settleAgain() {
+				n--
+				continue
+			}
 			break
 		}
 		i := choose(n, en)
@@ -1098,12 +1106,44 @@ func (r *syRig) runSchedule(choose func(step int, en []syAct) int, maxSteps int)
 		if stuck {
 			// diagnosis of a run that ends with something pending: the goroutines of the bubble (header + top frame)
 			syEndDump = syDumpHeads(syLastDump)
+			if os.Getenv("SY_RAWDUMP") != "" {
+				syEndDump = syLastDump
+			}
 		}
 	}
 	return
 }
 
 var syEndDump string
+
+func (r *syRig) pending() bool {
+	if r.active.Load() != 0 {
+		return true
+	}
+	r.mu.Lock()
+	defer r.mu.Unlock()
+	for _, th := range r.threads {
+		if th.busy.Load() {
+			return true
+		}
+	}
+	return false
+}
+
+// settleAgain gives everything more (real) time; true when something moved or became enabled
+func (r *syRig) settleAgain() bool {
+	m := r.hist.mark()
+	for i := 0; i < 400; i++ {
+		for j := 0; j < 200; j++ {
+			runtime.Gosched()
+		}
+		if r.hist.mark() != m || len(r.enabled()) > 0 {
+			r.wait()
+			return true
+		}
+	}
+	return false
+}
 
 func syDumpHeads(dump string) string {
 	var b strings.Builder
